@@ -39,3 +39,22 @@ chk("C15",
     "is left to the dtype lane of C03.",
     "symbolic execution at unbounded symbolic depth (inductive step obligations to z3) + bounded exhaustive nesting + SMT value equivalence",
     "DESIGN §3 C15")
+chk("C04",
+    "Histories are the enumerated input: every well-typed program of <=3 statements (thorough: + strided 4-statement programs with "
+    ">=2 in-place statements) over view / non-view / in-place templates (item assignment incl. advanced, boolean and self-overlapping "
+    "indices, augmented assignment, ufunc out= with where=, .shape assignment) from a base of shape (6,) or (2,3). Data are symbolic and "
+    "pairwise distinct; after EVERY statement all live tensors are compared with the NumPy twin (same source lines, mg. -> np., on "
+    "object ndarrays): element terms by z3, np.shares_memory for all pairs, .base identity, id(t), constant flag.",
+    "Trusted: NumPy executing the mutations of the twin; 0-d tensors correspond to 0-d arrays (NumPy scalars are wrapped); literal "
+    "scalars are 0-d symbolic constants. One graph epoch only. Histories beyond the bound are outside.",
+    "exhaustive history enumeration + symbolic execution of real code, differential against NumPy twin, SMT value equality", "DESIGN §3 C04")
+chk("C05",
+    "Same program grammar as C04 (<=2 statements quick, <=3 thorough, >=1 in-place) extended with reads of every live name before the "
+    "first mutation and at the end; L = sum of the reads; backward(). z3 decides for all real inputs that the .grad of every live "
+    "tensor (leaves feeding assignments, views, mutated bases, intermediates) equals the derivative of the NumPy twin's L - an oracle "
+    "that never runs MyGrad: overwritten elements simply no longer occur in the twin's term; for mutated tensors fresh cut variables "
+    "are written in place into the twin right after the last mutation of their memory owner.",
+    "Trusted: reference differentiator; version rule 'a tensor's current value is the one after the last in-place statement whose "
+    "target shares its memory (or .shape assignment to its memory owner)', which is the reading under which C06 (view grad = view of "
+    "base grad) and C05 are jointly satisfiable.",
+    "exhaustive program enumeration + symbolic execution + SMT equivalence against derivative of functional NumPy twin", "DESIGN §3 C05")
